@@ -532,7 +532,11 @@ class BaseScenario(BaseMonitoredProcess):
                 self._opt_hist_backup_path.unlink()
             elif load:
                 opt_pb.database.update_from_hdf(self._opt_hist_backup_path)
-                max_iteration = len(opt_pb.database)
+                # The entries without outputs (e.g. registered by a parallel DOE
+                # before being evaluated) are not iterations.
+                max_iteration = sum(
+                    1 for output_value in opt_pb.database.values() if output_value
+                )
                 if max_iteration != 0:
                     opt_pb.evaluation_counter.current = max_iteration
 
